@@ -649,7 +649,9 @@ class Resource(object):
                 container.eSet(feature, None)
 
     def remove(self, root):
-        root = getattr(root, '_wrapped', None) or root  # (a resolved proxy)
+        wrapped = getattr(root, '_wrapped', None)  # (a resolved proxy)
+        if wrapped is not None:
+            root = wrapped
         # by identity: another root may compare equal to this one
         index = next((i for i, x in enumerate(self.contents) if x is root),
                      None)
